@@ -161,4 +161,25 @@ mutual
     | (k, v) :: r => asc (Rd.hexOf k) ++ 0x3D :: show' v ++ 0x20 :: showKvs r
 end
 
+/-! ### shape of printed numbers -/
+
+/-- what a decimal printer emits for a finite number: optional minus sign, integer digits, and a
+point followed by fraction digits when there are any (`dec` drops a zero integer part: `.5`) -/
+def decShape (neg : Bool) (ip fr : Bytes) : Bytes :=
+  (if neg then [0x2D] else []) ++ (ip ++ (if fr.isEmpty then [] else 0x2E :: fr))
+
+def spanDigits : Bytes → Bytes × Bytes
+  | [] => ([], [])
+  | c :: r => if isDigit c then ((spanDigits r).1 |> (c :: ·), (spanDigits r).2) else ([], c :: r)
+
+/-- decompose a printed number into sign, integer digits, fraction digits; `none` if it is not of
+the shape `-?d*(.d+)?` with at least one digit -/
+def decParse (p : Bytes) : Option (Bool × Bytes × Bytes) :=
+  let neg := p.head? == some 0x2D
+  let q := if neg then p.drop 1 else p
+  let ip := (spanDigits q).1
+  match (spanDigits q).2 with
+  | [] => if ip.isEmpty then none else some (neg, ip, [])
+  | c :: fr => if c == 0x2E && !fr.isEmpty && fr.all isDigit then some (neg, ip, fr) else none
+
 end Canvas.C13.P
